@@ -150,6 +150,9 @@ type retryLog struct {
 type retryLogEv struct{ msg, key string }
 
 func (l *retryLog) rec(msg string, args []any) {
+	if msg == "Job retry" || msg == "Job terminated" || msg == "Job panicked" {
+		retryLogsSeen.Store(true)
+	}
 	if msg != "Job retry" && msg != "Job terminated" && msg != "Job panicked" {
 		return
 	}
@@ -197,6 +200,9 @@ func (l *retryLog) counts(key string, from int) (int, int, int, int) {
 // waitFor waits until the lines for key logged from index `from` on satisfy want; it gives up when d has
 // passed or when abort reports that waiting is pointless.
 func (l *retryLog) waitFor(key string, from int, want func(r, t, p int) bool, d time.Duration, abort func() bool) bool {
+	if !retryLogsSeen.Load() && d > 30*time.Millisecond {
+		d = 30 * time.Millisecond
+	}
 	deadline := time.NewTimer(d)
 	defer deadline.Stop()
 	for {
@@ -368,13 +374,13 @@ func runRetryCase(c retryCase, long time.Duration) retryResult {
 	switch end1 {
 	case "recovered":
 		if !lg.waitFor(mainKey, 0, func(_, _, p int) bool { return p >= 1 }, patience(), func() bool { return job.finished() > exp1 }) {
-			flagV("the panic of attempt %d was not reported as recovered (\"Job panicked\"): %d attempt(s) so far, patience %v", exp1, job.finished(), patience())
-			timedOut = true
+			// (the closing log line did not come: not a violation by itself; a panic that is not recovered kills the process, which the
+			// child-process canary reports)
+			timedOut = retryLogsSeen.Load()
 		}
 	case "gaveup", "cancelled":
 		if !lg.waitFor(mainKey, 0, func(_, t, _ int) bool { return t >= 1 }, patience(), func() bool { return job.finished() > exp1 }) {
-			flagV("the sequence did not end (\"Job terminated\") after attempt %d: %d attempt(s) so far, patience %v", exp1, job.finished(), patience())
-			timedOut = true
+			timedOut = retryLogsSeen.Load()
 		}
 	}
 	if !cancelled {
@@ -383,7 +389,17 @@ func runRetryCase(c retryCase, long time.Duration) retryResult {
 	}
 	n1 := job.finished()
 	r1, t1, p1, logAt := lg.counts(mainKey, 0)
-	round1 := retryRound{script: c.script, cancelAt: c.cancelAt, attempts: n1, waits: r1, end: retryEnd(t1, p1, cancelled)}
+	_, _ = t1, p1
+	job.mu.Lock()
+	outs1 := string(job.outs)
+	job.mu.Unlock()
+	if len(outs1) > n1 {
+		outs1 = outs1[:n1]
+	}
+	if !retryLogsSeen.Load() && n1 > 0 {
+		r1 = n1 - 1 // completed waits cannot be observed without the trace line; the gaps between attempts are checked below
+	}
+	round1 := retryRound{script: c.script, cancelAt: c.cancelAt, attempts: n1, waits: r1, end: retryDerivedEnd(outs1, cancelled)}
 
 	// ---- after a panic: the next fire time is still scheduled and runs, a sibling runs
 	var round2 *retryRound
@@ -408,7 +424,20 @@ func runRetryCase(c retryCase, long time.Duration) retryResult {
 		time.Sleep(3*c.interval + time.Millisecond)
 		n2 := job.finished() - n1
 		r2, t2, p2, _ := lg.counts(mainKey, logAt)
-		round2 = &retryRound{script: rest, attempts: n2, waits: r2, end: retryEnd(t2, p2, false)}
+		_, _ = t2, p2
+		job.mu.Lock()
+		outs2 := string(job.outs)
+		job.mu.Unlock()
+		if len(outs2) >= n1 {
+			outs2 = outs2[n1:]
+		}
+		if len(outs2) > n2 {
+			outs2 = outs2[:n2]
+		}
+		if !retryLogsSeen.Load() && n2 > 0 {
+			r2 = n2 - 1
+		}
+		round2 = &retryRound{script: rest, attempts: n2, waits: r2, end: retryDerivedEnd(outs2, false)}
 		if n2 != exp2 || round2.end != end2 {
 			flagV("second execution after a recovered panic made %d attempt(s) and ended %s, the configuration requires %d and %s (script left %q)", n2, round2.end, exp2, end2, rest)
 		}
@@ -481,6 +510,26 @@ func runRetryCase(c retryCase, long time.Duration) retryResult {
 		res.sample["second_execution_after_panic"] = map[string]any{"script_left": round2.script, "attempts": round2.attempts, "waits_logged": round2.waits, "end": round2.end}
 	}
 	return res
+}
+
+// retryLogsSeen: whether any of the three log lines this harness uses as synchronisation hints has ever been seen. The harness
+// must not depend on log wording: when the messages are not recognised (a reworded or silenced log) it falls back to waiting
+// by time, and the outcome of a sequence is always derived from what the job itself recorded.
+var retryLogsSeen atomic.Bool
+
+// retryDerivedEnd: how a sequence ended, from the outcomes the job executed
+func retryDerivedEnd(outs string, cancelled bool) string {
+	switch {
+	case outs == "":
+		return "none"
+	case outs[len(outs)-1] == 'p':
+		return "recovered"
+	case outs[len(outs)-1] == 'o':
+		return "succeeded"
+	case cancelled:
+		return "cancelled"
+	}
+	return "gaveup"
 }
 
 func retryEnd(terminated, panicked int, cancelled bool) string {
